@@ -18,7 +18,7 @@ RULE = (
     "quotient; metamorphic: mag(a*b)=mag(b*a), mag((a*b)/b)=mag(a), a op b computed twice on the same operand "
     "objects gives the model amount both times, every tree with a unit conversion evaluates identically on the "
     "long-lived database of the shard and on a freshly built one, and a battery of products matching one of its unit "
-    "pairs in both directions with exponents +-2, +-3 agrees with the model on the long-lived database, a**n == n-fold product. Also a*b, b*a, a/b, b/a, a*a, a/a, (a*b)/b with a created directly on a derived quantity that writes one quantity type in two units under two categories (m.km, m3/ft3; Scalar, list, ndarray), each computed twice; products and quotients of two Arrays in different container kinds (list, tuple, float64 / int64 / float32 ndarray). Non-trivial = some "
+    "pairs in both directions with exponents +-2, +-3 agrees with the model on the long-lived database, a**n == n-fold product (n up to 3 inside the trees, up to 8 on single Scalars). Also a*b, b*a, a/b, b/a, a*a, a/a, (a*b)/b with a created directly on a derived quantity that writes one quantity type in two units under two categories (m.km, m3/ft3; Scalar, list, ndarray), each computed twice; products and quotients of two Arrays in different container kinds (list, tuple, float64 / int64 / float32 ndarray). One shard runs the trees on the simple length/time filler (units given by formula strings). Non-trivial = some "
     "operand is converted (shared type, different units) with exponent != 1, or >= 3 leaves; distinct key = tree."
 )
 ASSUMPTIONS = ["UnitModel slopes come from single-unit float conversions (validated by C01)", "**0 and negative powers are outside the statement"]
@@ -29,7 +29,11 @@ SHARDS = {"quick": 6, "thorough": 16}
 
 
 def plan(tier, seed):
-    return [{"tier": tier, "seed": seed, "n": N[tier], "depth": DEPTH[tier]} for _ in range(SHARDS[tier])]
+    specs = [{"tier": tier, "seed": seed, "n": N[tier], "depth": DEPTH[tier]} for _ in range(SHARDS[tier])]
+    # the same trees on the library's simple length/time filler (units given by formula strings instead of table
+    # coefficients): what is matched and how does not depend on how a unit was registered
+    specs.append({"tier": tier, "seed": seed, "n": N[tier] // 2, "depth": DEPTH[tier], "db": "simple"})
+    return specs
 
 
 class Skip(Exception):
@@ -175,7 +179,7 @@ class Checker:
         if converted and kind != "quantity":
             # the shard's database has served every earlier example; the same tree on a freshly built database
             # must give the identical result (nothing remembered from earlier unit matching may leak in)
-            fdb = env.new_db("posc")
+            fdb = env.new_db(getattr(self, "db_kind", "posc"))
             with env.pushed(fdb):
                 fresh = self.ev(t, kind)
                 fv = self.values_of(fresh, kind)
@@ -370,6 +374,26 @@ class Checker:
             if v2 != v0 or repr(r2.GetQuantity()) != repr(q):
                 ctx.fail("product_not_repeatable:mixed_unit_operand", case, "%s computed twice on the same operands gives %r and then %r" % (what, r, r2))
 
+    def check_high_powers(self, case):
+        """a**n for n up to 8 is the n-fold product (the trees stop at n = 3)"""
+        from barril.units import Scalar
+
+        ctx, db, um = self.ctx, self.db, self.um
+        u, c, x = case["u"], case["c"], case["x"]
+        a = Scalar(x, u, c)
+        prod = a
+        for n in range(2, 9):
+            prod = prod * a
+            r = a**n
+            ctx.ev()
+            if dims_of_quantity(db, r.GetQuantity()) != {um.qt[u]: n}:
+                ctx.fail("power_dims_wrong", dict(case, n=n), "%r ** %d has exponents %r" % (a, n, dims_of_quantity(db, r.GetQuantity())))
+            want = (x * um.slope[u]) ** n
+            got = mag_of(um, r.GetQuantity(), r.GetValue())
+            if math.isfinite(want) and 1e-250 < abs(want) < 1e250 and (not relclose(got, want, 1e-9) or not relclose(mag_of(um, prod.GetQuantity(), prod.GetValue()), want, 1e-9)):
+                ctx.fail("power_is_not_the_n_fold_product", dict(case, n=n), "%r ** %d = %r (%r in base units), the %d-fold product is %r, the model %r" % (a, n, r, got, n, prod, want))
+        ctx.cls("high_powers_checked")
+
     def check_container_mix(self, case):
         """two Arrays in different container kinds, one of them possibly an integer ndarray: the amounts of either
         operand are what they are, whatever container or dtype its partner has"""
@@ -515,10 +539,15 @@ def _fix_tree(t):
 
 
 def run_shard(spec, ctx):
-    db = env.new_db("posc")
+    kind = spec.get("db", "posc")
+    db = env.new_db(kind)
     with env.pushed(db):
         ch = Checker(ctx, db)
+        ch.db_kind = kind
         strat = _case_strategy(ch, spec["depth"])
+        if kind != "posc":
+            strat = strat.map(lambda c: dict(c, db=kind))
+            ctx.cls("shard_on_%s_database" % kind)
 
         def mk():
             @given(strat)
@@ -529,6 +558,8 @@ def run_shard(spec, ctx):
             return test
 
         core.hunt(ctx, mk, spec["seed"] * 1000 + spec["shard"], spec["n"])
+        if kind != "posc":
+            return
         mixed = _mixed_strategy(ch)
 
         def mk2():
@@ -539,6 +570,18 @@ def run_shard(spec, ctx):
             return test
 
         core.hunt(ctx, mk2, spec["seed"] * 1000 + spec["shard"] + 500, max(100, spec["n"] // 6))
+        hp = st.fixed_dictionaries({"high_powers": st.just(True), "x": gen.moderate_values(0.5, 20.0)}).flatmap(
+            lambda d: ch.pool.leaf_strategy().map(lambda leaf: dict(d, u=leaf[2], c=leaf[3]))
+        )
+
+        def mk4():
+            @given(hp)
+            def test(case):
+                core.guarded(ctx, ch.check_high_powers, case)
+
+            return test
+
+        core.hunt(ctx, mk4, spec["seed"] * 1000 + spec["shard"] + 900, max(60, spec["n"] // 12))
         mix = _container_mix_strategy(ch)
 
         def mk3():
@@ -552,11 +595,14 @@ def run_shard(spec, ctx):
 
 
 def replay(case, ctx):
-    db = env.new_db("posc")
+    db = env.new_db(case.get("db", "posc"))
     with env.pushed(db):
         ch = Checker(ctx, db)
+        ch.db_kind = case.get("db", "posc")
         if case.get("mixed"):
             return core.replay_guarded(ctx, ch.check_mixed, case)
+        if case.get("high_powers"):
+            return core.replay_guarded(ctx, ch.check_high_powers, case)
         if case.get("container_mix"):
             return core.replay_guarded(ctx, ch.check_container_mix, case)
         case = {"tree": _fix_tree(case["tree"]), "kind": case["kind"]}
